@@ -10,6 +10,7 @@ import (
 	"encoding/json"
 	"fmt"
 	"os"
+	"reflect"
 	"runtime"
 	"sort"
 	"strings"
@@ -190,6 +191,24 @@ func AllocLimit(n int)  {}
 // (larger ones are outside the claim, and counted in the evidence).
 func AllocBound(n int) {}
 func Preemptions(n int) {}
+
+// StructTag returns the struct tag of the named field of v's (pointed-to) struct type.
+func StructTag(v interface{}, field string) string {
+	t := reflect.TypeOf(v)
+	if t == nil {
+		return ""
+	}
+	if t.Kind() == reflect.Ptr {
+		t = t.Elem()
+	}
+	if t.Kind() != reflect.Struct {
+		return ""
+	}
+	if f, ok := t.FieldByName(field); ok {
+		return string(f.Tag)
+	}
+	return ""
+}
 
 // RaceCheck switches the happens-before data-race monitor on for this harness (symbolic runs); a
 // race it finds is confirmed natively by running the harness under the Go race detector.
